@@ -8,7 +8,7 @@ Theorems over the tree model M-Res (`TTV/Model/Result.lean`), for **every** grap
 `ExtendedToOriginalDecorator`, `TestResultDecorator`, `Tagger`, `ThreadsafeForwardingResult`, `MultiTestResult`
 over `TestResult` / `TextTestResult` leaves and **every** call history (no bound).
 
-* `holds_model_partial`        : the clauses `verdict`, `text-summary`, `failfast-stops`, `stop-reaches`, `exit-status` of
+* `holds_model_partial`        : the clauses `verdict`, `text-summary`, `failfast-stops`, `stop-sticky`, `stop-reaches`, `exit-status` of
                                  `Spec.C04.clauses` are true of the model's trace (see its docstring for the scope)
 * `C04_verdict`                : `wasSuccessful()` is false exactly when an error / failure / unexpected success was reported
                                  since the last `startTestRun` (on any branch of a `MultiTestResult`)
@@ -16,10 +16,10 @@ over `TestResult` / `TextTestResult` leaves and **every** call history (no bound
 * `C04_failfast_stops_partial` : with `failfast` reading true, the first bad outcome sets `shouldStop` (all but a directly used
                                  `ThreadsafeForwardingResult`: finding `tfrOwnFailfastDirect`)
 * `C04_stop_reaches`           : `stop()` on any node sets `shouldStop` on every result below it and on the node
+* `C04_stop_sticky`            : `shouldStop` stays set under every call but `startTestRun`
 * `C04_exit`                   : exit status and summary of `testtools.run` for a module of test cases, with and without `-f`
 * `C04_finding_tfr`, `C04_finding_nested` : the model reproduces the two known findings
-Not proved (correspondence only): the clauses `failfast-kept` (wrapping leaves `failfast` alone), `stop-sticky`,
-`not-earlier`; everything through `ExtendedToStreamDecorator` + `StreamFailFast`.
+Not proved (correspondence only): the clauses `failfast-kept` (wrapping leaves `failfast` alone) and `not-earlier`; everything through `ExtendedToStreamDecorator` + `StreamFailFast`.
 -/
 namespace TTV.Props.C04
 open TTV.Result TTV.ResC04 TTV.Spec.C04 TTV.Lemmas.LeafAct TTV.Lemmas.ResEmit
@@ -838,6 +838,133 @@ theorem C04_failfast_stops_partial (s : Shape) (hw : s.wf = true) (ho : ownLeave
         simp [this]
       | _ => simp [Shape.wf, Shape.wfL] at hw
 
+/-! ### `shouldStop` stays set until the next `startTestRun` -/
+theorem main_noRun (caps : Caps) (c : Call) (hc : c ≠ .startTestRun) : ∀ x ∈ etodMain caps c, x ≠ .startTestRun := by
+  cases c <;> simp [etodMain, Spec.C08.degradeCall] at hc ⊢ <;> (try split) <;> simp
+
+theorem tfrBlock_noRun (own : TfrOwn) (k : Kind) (t : Nat) (a : Arg) :
+    ∀ x ∈ tfrBlock own k t a, x ≠ Call.startTestRun := by
+  have : (tfrBlock own k t a).all (fun x => x != Call.startTestRun) = true := by
+    cases h1 : anyTags own.globalTags <;> cases h2 : anyTags own.testTags <;> simp [tfrBlock, h1, h2]
+  intro x hx
+  have := List.all_eq_true.mp this x hx
+  simpa using this
+
+theorem tt_ss_mono (s : TT) (c : Call) (hc : c ≠ .startTestRun) (h : s.shouldStop = true) : (ttStep s c).shouldStop = true := by
+  cases c with
+  | add k t a => cases k <;> simp [ttStep, h, Call.logged]
+  | startTestRun => exact absurd rfl hc
+  | _ => simp [ttStep, h, Call.logged]
+
+mutual
+theorem ss_mono : ∀ (s : Shape), ownLeaves s = true → s.noStream = true → ∀ (cs : List Call),
+    (∀ x ∈ cs, x ≠ Call.startTestRun) → ∀ (st : St s), shouldStopOf s st = true →
+    shouldStopOf s (cs.foldl (step s) st) = true
+  | _, _, _, [], _, _, h => h
+  | .sink _, ho, _, _ :: _, _, _, _ => by simp [ownLeaves] at ho
+  | .tbt, ho, _, _ :: _, _, _, _ => by simp [ownLeaves] at ho
+  | .tt ff, ho, hn, c :: cs, hc, st, h => by
+      rw [List.foldl_cons]
+      exact ss_mono (.tt ff) ho hn cs (fun x hx => hc x (List.mem_cons_of_mem _ hx)) _
+        (tt_ss_mono st c (hc c List.mem_cons_self) h)
+  | .text ff, ho, hn, c :: cs, hc, st, h => by
+      rw [List.foldl_cons]
+      refine ss_mono (.text ff) ho hn cs (fun x hx => hc x (List.mem_cons_of_mem _ hx)) _ ?_
+      have := tt_ss_mono st.tt c (hc c List.mem_cons_self) h
+      cases c <;> simpa [shouldStopOf, step, textStep] using this
+  | .etod ch, ho, hn, c :: cs, hc, (own, inner), h => by
+      rw [List.foldl_cons]
+      have ho' : ownLeaves ch = true := by simpa [ownLeaves] using ho
+      have hn' : ch.noStream = true := by simpa [Shape.noStream] using hn
+      refine ss_mono (.etod ch) ho hn cs (fun x hx => hc x (List.mem_cons_of_mem _ hx)) _ ?_
+      obtain ⟨k, hk⟩ := etodStep_emits ⟨caps ch, step ch, failfastOf ch⟩ own inner c
+      have h2 : (step (.etod ch) (own, inner) c).2
+          = (etodMain (caps ch) c ++ List.replicate k Call.stop).foldl (step ch) inner := hk
+      simp only [shouldStopOf, (caps_own ch ho').2, ite_true] at h ⊢
+      rw [h2]
+      refine ss_mono ch ho' hn' _ ?_ inner h
+      intro x hx
+      rcases List.mem_append.mp hx with hx | hx
+      · exact main_noRun _ c (hc c List.mem_cons_self) x hx
+      · rw [List.eq_of_mem_replicate hx]; simp
+  | .deco ch, ho, hn, c :: cs, hc, st, h => by
+      rw [List.foldl_cons]
+      have ho' : ownLeaves ch = true := by simpa [ownLeaves] using ho
+      have hn' : ch.noStream = true := by simpa [Shape.noStream] using hn
+      refine ss_mono (.deco ch) ho hn cs (fun x hx => hc x (List.mem_cons_of_mem _ hx)) _ ?_
+      have h1 := ss_mono ch ho' hn' [c] (by simpa using hc c List.mem_cons_self) st h
+      simp only [shouldStopOf] at h ⊢
+      cases c <;> first | exact h1 | exact h
+  | .tagger n g ch, ho, hn, c :: cs, hc, st, h => by
+      rw [List.foldl_cons]
+      have ho' : ownLeaves ch = true := by simpa [ownLeaves] using ho
+      have hn' : ch.noStream = true := by simpa [Shape.noStream] using hn
+      refine ss_mono (.tagger n g ch) ho hn cs (fun x hx => hc x (List.mem_cons_of_mem _ hx)) _ ?_
+      have h1 := ss_mono ch ho' hn' [c] (by simpa using hc c List.mem_cons_self) st h
+      simp only [shouldStopOf] at h ⊢
+      cases c with
+      | startTest t => exact ss_mono ch ho' hn' [.startTest t, .tags n g] (by simp) st h
+      | done => exact h
+      | setFailfast b => exact h
+      | _ => exact h1
+  | .tfr ch, ho, hn, c :: cs, hc, (own, inner), h => by
+      rw [List.foldl_cons]
+      have ho' : ownLeaves ch = true := by simpa [ownLeaves] using ho
+      have hn' : ch.noStream = true := by simpa [Shape.noStream] using hn
+      refine ss_mono (.tfr ch) ho hn cs (fun x hx => hc x (List.mem_cons_of_mem _ hx)) _ ?_
+      simp only [shouldStopOf] at h ⊢
+      have hcn := hc c List.mem_cons_self
+      cases c with
+      | add k t a =>
+        exact ss_mono ch ho' hn' (tfrBlock own k t a) (tfrBlock_noRun own k t a) inner h
+      | startTestRun => exact absurd rfl hcn
+      | stopTestRun => exact ss_mono ch ho' hn' [.stopTestRun] (by simp) inner h
+      | stop => exact ss_mono ch ho' hn' [.stop] (by simp) inner h
+      | done => exact ss_mono ch ho' hn' [.done] (by simp) inner h
+      | _ => exact h
+  | .multi ss, ho, hn, c :: cs, hc, (own, inner), h => by
+      rw [List.foldl_cons]
+      have ho' : ownLeavesL ss = true := by simpa [ownLeaves] using ho
+      have hn' : Shape.noStreamL ss = true := by simpa [Shape.noStream] using hn
+      refine ss_mono (.multi ss) ho hn cs (fun x hx => hc x (List.mem_cons_of_mem _ hx)) _ ?_
+      have hcn := hc c List.mem_cons_self
+      simp only [shouldStopOf] at h ⊢
+      have h1 := ssL_mono ss ho' hn' c hcn inner h
+      cases c <;> first | exact h1 | exact h | exact absurd rfl hcn
+  | .e2s _, _, hn, _ :: _, _, _, _ => by simp [Shape.noStream] at hn
+theorem ssL_mono : ∀ (ss : List Shape), ownLeavesL ss = true → Shape.noStreamL ss = true → ∀ (c : Call),
+    c ≠ Call.startTestRun → ∀ (st : StL ss), (shouldStopL ss st).any id = true →
+    (shouldStopL ss (stepL ss st c)).any id = true
+  | [], _, _, _, _, _, h => by simp [shouldStopL] at h
+  | s :: ss, ho, hn, c, hc, (x, xs), h => by
+      simp only [ownLeavesL, Bool.and_eq_true] at ho
+      simp only [Shape.noStreamL, Bool.and_eq_true] at hn
+      simp only [shouldStopL, stepL, List.any_cons, id, Bool.or_eq_true] at h ⊢
+      rcases h with h | h
+      · left
+        have := ss_mono s ho.1 hn.1 [c] (by simpa using hc) x h
+        simpa using this
+      · right; exact ssL_mono ss ho.2 hn.2 c hc xs h
+end
+
+/-- **C04 (stop is sticky).**  Once `shouldStop` is set it stays set under every call except `startTestRun`. -/
+theorem C04_stop_sticky (s : Shape) (ho : ownLeaves s = true) (hn : s.noStream = true) (st : St s) (c : Call)
+    (hc : c ≠ .startTestRun) (h : shouldStopOf s st = true) : shouldStopOf s (step s st c) = true := by
+  have := ss_mono s ho hn [c] (by simpa using hc) st h
+  simpa using this
+
+theorem sticky_states (s : Shape) (ho : ownLeaves s = true) (hn : s.noStream = true) :
+    ∀ (h : List Call) (st : St s), sticky (shouldStopOf s st) h ((states s st h).map (observe s)) = true
+  | [], _ => rfl
+  | c :: h, st => by
+      simp only [states, List.map_cons, sticky, Bool.and_eq_true, Bool.or_eq_true, Bool.not_eq_true']
+      refine ⟨?_, sticky_states s ho hn h _⟩
+      by_cases h1 : shouldStopOf s st = true
+      · by_cases hc : c = .startTestRun
+        · left; simp [hc]
+        · right; exact C04_stop_sticky s ho hn st c hc h1
+      · left; simp [h1]
+
 /-! ## the proved clauses of the executable specification hold of the model -/
 theorem obs_map (s : Shape) (st : St s) (h : List Call) (f : Obs → α) :
     ((states s st h).map (observe s)).map f = (states s st h).map (fun x => f (observe s x)) := by
@@ -920,15 +1047,14 @@ theorem ffStops_tfr (ch : Shape) : ∀ (h : List Call) (st : St (.tfr ch)),
       refine ⟨.inl ?_, ffStops_tfr ch h _ hh.2 hf'⟩
       simp [readFF, caps, failfastOf, hf0]
 
-/-- the clauses of `Spec.C04.clauses` proved of the model so far (not yet: `failfast-kept`, `stop-sticky`,
-`not-earlier` — these are checked against the implementation and the model by the correspondence only) -/
+/-- the clauses of `Spec.C04.clauses` proved of the model so far (not yet: `failfast-kept`, `not-earlier` — these are checked against the implementation and the model by the correspondence only) -/
 def provedClauses : List (String × (Input → Trace → Bool)) :=
-  [("verdict", cVerdict), ("text-summary", cText), ("failfast-stops", cFailfastStops),
+  [("verdict", cVerdict), ("text-summary", cText), ("failfast-stops", cFailfastStops), ("stop-sticky", cSticky),
    ("stop-reaches", cStopReaches), ("exit-status", cExit)]
 
 /-- **Headline (partial).**  Full statement: `∀ i, i.shape.wf → ¬ tfrOwnFailfastDirect i → ¬ nestedMultiFailfast i →
 Spec.C04.holds i (model i) = true`.  Proved here: the clauses `verdict`, `text-summary`, `failfast-stops`,
-`stop-reaches`, `exit-status` for every input whose graph has no stream pipeline and no `TextTestResult` behind a
+`stop-sticky`, `stop-reaches`, `exit-status` for every input whose graph has no stream pipeline and no `TextTestResult` behind a
 `ThreadsafeForwardingResult`, outside the finding class `tfrOwnFailfastDirect`. -/
 theorem holds_model_partial (i : Input) (hw : i.shape.wf = true) (hn : i.shape.noStream = true)
     (ht : i.shape.hasTfr = false ∨ hasText i.shape = false) (hc : tfrOwnFailfastDirect i = false) :
@@ -939,7 +1065,7 @@ theorem holds_model_partial (i : Input) (hw : i.shape.wf = true) (hn : i.shape.n
     intro h
     simp only [inScope, Bool.and_eq_true, Bool.or_eq_true, Bool.not_eq_true', beq_iff_eq] at h
     exact ⟨h.1.1, h.1.2, h.2⟩
-  refine ⟨?_, ?_, ?_, ?_, ?_⟩
+  refine ⟨?_, ?_, ?_, ?_, ?_, ?_⟩
   · -- verdict
     cases hs : inScope i
     · simp [cVerdict, hs]
@@ -985,6 +1111,18 @@ theorem holds_model_partial (i : Input) (hw : i.shape.wf = true) (hn : i.shape.n
         simp only [tfrOwnFailfastDirect, Bool.true_and] at hc
         exact ffStops_tfr c hist (init (.tfr c)) hc rfl
       · exact ffStops_states i.shape hw ho hn (fun c hcs => hroot ⟨c, hcs⟩) i.hist (init i.shape)
+  · -- stop is sticky
+    cases hs : inScope i
+    · simp [cSticky, hs]
+    · obtain ⟨_, ho, _⟩ := scope hs
+      simp only [cSticky, hs, Bool.not_true, Bool.false_or, model]
+      have := sticky_states i.shape ho hn i.hist (init i.shape)
+      cases hh : i.hist with
+      | nil => simp [states, sticky]
+      | cons c h =>
+        rw [hh] at this
+        simp only [states, List.map_cons, sticky, Bool.and_eq_true] at this ⊢
+        exact ⟨by simp, this.2⟩
   · -- stop reaches
     cases hs : inScope i
     · simp [cStopReaches, hs]
